@@ -241,9 +241,13 @@ class Gen:
             col = col.expand(*(list(self.batch) + [n])).clone()
             a = {"col": T(col, "toeplitz column")}
         elif recipe == "Root":
-            k = n + rng.choice([0, 1])
-            R = self.randn(*(list(self.batch) + [n, k])) + 0.0
-            R = R + 1.5 * torch.eye(n, k, dtype=torch.float64)
+            # a root of a well conditioned matrix: the Cholesky factor of a PSD matrix of the world's spectrum, rotated so that it
+            # is not triangular, optionally with one extra small column (n x (n+1) root)
+            L = torch.linalg.cholesky(self.psd(n))
+            Q, _ = _REAL_QR(self.randn(*(list(self.batch) + [n, n])))
+            R = L @ Q
+            if rng.random() < 0.5:
+                R = torch.cat([R, 0.1 * self.randn(*(list(self.batch) + [n, 1]))], dim=-1)
             a = {"R": T(R, "root")}
         elif recipe == "LowRankRoot":
             k = max(1, n // 2)
